@@ -76,6 +76,7 @@ def decision_tree(
     alias_filter: Callable[[ast.Assign], bool] | None = None,
     max_atoms: int = 12,
     domain: Callable[[str], tuple] | None = None,
+    try_as_body: bool = False,
 ) -> list[Leaf]:
     """Enumerate the leaves.  ``loop_hook(loop, assign)`` may interpret a loop: it returns
     None (loop is an opaque simple statement), or "return-false"/"return-true"... handled by caller
@@ -115,7 +116,12 @@ def decision_tree(
                             raise r
                     executed.append(st)
                 elif isinstance(st, ast.Try):
-                    raise Unsupported("try statement inside a decided region", st)
+                    if not try_as_body:
+                        raise Unsupported("try statement inside a decided region", st)
+                    # only the non-exceptional flow is enumerated
+                    block(st.body)
+                    block(st.orelse)
+                    block(st.finalbody)
                 elif isinstance(st, ast.With):
                     block(st.body)
                 else:
